@@ -72,7 +72,15 @@ class C19(Base):
             scheme = rng.choice(SCHEMES)
             locales = rng.sample(LOCALES, rng.choice([1, 2, 2, 3]))
             rids = rng.sample(RES_IDS, rng.choice([1, 2, 3, 3, 4]))
-            if big:
+            if big and rng.random() < 0.4:
+                # LONG paths full of multi-byte characters, shifted byte by byte (anything that cuts a path - for an
+                # error message, a cache key - at a fixed byte offset lands inside a character for some of them)
+                stem = rng.choice(["長い名前のリソース", "очень-длинное-имя", "😀😀😀😀", "ééééééééé"])
+                # (a file NAME may not exceed 255 bytes - the OS answers "name too long", not "not found" - and some
+                # schemes use the id twice: keep one occurrence below 100 bytes)
+                stem = stem * max(1, 90 // len(stem.encode("utf-8")))
+                rids = ["a" * k + stem + "%d.ftl" % k for k in range(4)]
+            elif big:
                 # MANY resource files per bundle (9-24 distinct ids requested at once)
                 rids = rids[:2] + ["r%d.ftl" % i for i in range(rng.choice([9, 10, 16, 17, 24]))]
             paths = sorted({path_of(scheme, l, r) for l in locales for r in rids})
@@ -108,7 +116,7 @@ class C19(Base):
 
         def idlist():
             k = rng.choice([0, 1, 1, 2, 2, 3, 4])
-            if big and rng.random() < 0.6:
+            if big and len(rids) >= 9 and rng.random() < 0.6:
                 return rng.sample(rids, rng.randint(9, len(rids)))
             return [rng.choice(rids) for _ in range(k)]
 
